@@ -51,15 +51,21 @@ SIG = {
     # script assembly: a token is an opcode name / a hex string (modelled by the bytes it denotes) / an int
     'script_to_bytes': ('script.py', 'Script.to_bytes', [('OPS', 'List (String × Bytes)'), ('self_script', 'List Py.PyTok')], 'Bytes'),
     # tagged hashes of utils.py and the message-signing prefix (str arguments are modelled by their UTF-8 bytes)
-    'utils_tagged_hash': ('utils.py', 'tagged_hash', [('sha256', 'Bytes → Bytes'), ('data', 'Bytes'), ('tag', 'Bytes')], 'Bytes'),
+    'utils_tagged_hash': ('utils.py', 'tagged_hash', [('hashlib_sha256', 'Bytes → Bytes'), ('data', 'Bytes'), ('tag', 'Bytes')], 'Bytes'),
     'tapbranch_tagged_hash': ('utils.py', 'tapbranch_tagged_hash',
-                              [('sha256', 'Bytes → Bytes'), ('thashed_a', 'Bytes'), ('thashed_b', 'Bytes')], 'Bytes'),
+                              [('hashlib_sha256', 'Bytes → Bytes'), ('thashed_a', 'Bytes'), ('thashed_b', 'Bytes')], 'Bytes'),
     'add_magic_prefix': ('utils.py', 'add_magic_prefix', [('message', 'Bytes')], 'Bytes'),
     # script disassembly (works on the bytes the hex string denotes)
     'script_from_raw': ('script.py', 'Script.from_raw',
                         [('CODEOPS', 'List (Bytes × String)'), ('scriptrawhex', 'Bytes'), ('has_segwit', 'Bool')], 'List Py.PyTok'),
     'tapleaf_tagged_hash': ('utils.py', 'tapleaf_tagged_hash',
-                            [('sha256', 'Bytes → Bytes'), ('OPS', 'List (String × Bytes)'), ('script', 'List Py.PyTok')], 'Bytes'),
+                            [('hashlib_sha256', 'Bytes → Bytes'), ('OPS', 'List (String × Bytes)'), ('script', 'List Py.PyTok')], 'Bytes'),
+    # locking-script templates (a method that only returns a stored hex string is that field) and script-hash commitments
+    'p2pkh_script_pub_key': ('keys.py', 'P2pkhAddress.to_script_pub_key', [('self_hash160', 'Bytes')], 'List Py.PyTok'),
+    'p2sh_script_pub_key': ('keys.py', 'P2shAddress.to_script_pub_key', [('self_hash160', 'Bytes')], 'List Py.PyTok'),
+    'p2wpkh_script_pub_key': ('keys.py', 'P2wpkhAddress.to_script_pub_key', [('self_witness_program', 'Bytes')], 'List Py.PyTok'),
+    'p2wsh_script_pub_key': ('keys.py', 'P2wshAddress.to_script_pub_key', [('self_witness_program', 'Bytes')], 'List Py.PyTok'),
+    'p2tr_script_pub_key': ('keys.py', 'P2trAddress.to_script_pub_key', [('self_witness_program', 'Bytes')], 'List Py.PyTok'),
     # transaction serialisation: objects are records of their fields (PyTxIn, PyTxOut, PyWit)
     'txwitness_to_bytes': ('transactions.py', 'TxWitnessInput.to_bytes', [('self_stack', 'List Bytes')], 'Bytes'),
     'txoutput_to_bytes': ('transactions.py', 'TxOutput.to_bytes',
@@ -76,21 +82,25 @@ SIG = {
                      [('h0', 'Int'), ('h1', 'Int'), ('h2', 'Int'), ('h3', 'Int'), ('h4', 'Int'), ('block', 'Bytes')],
                      'Int × Int × Int × Int × Int'),
     'rmd_ripemd160': ('ripemd160.py', 'ripemd160', [('data', 'Bytes')], 'Bytes'),
+    'script_to_p2sh_spk': ('script.py', 'Script.to_p2sh_script_pub_key',
+                           [('hashlib_sha256', 'Bytes → Bytes'), ('OPS', 'List (String × Bytes)'), ('self_script', 'List Py.PyTok')], 'List Py.PyTok'),
+    'script_to_p2wsh_spk': ('script.py', 'Script.to_p2wsh_script_pub_key',
+                            [('hashlib_sha256', 'Bytes → Bytes'), ('OPS', 'List (String × Bytes)'), ('self_script', 'List Py.PyTok')], 'List Py.PyTok'),
     # the curve arithmetic of the bundled BIP340 reference code (points: None | (x, y))
     'schnorr_point_add': ('schnorr.py', 'point_add', [('P1', 'Point'), ('P2', 'Point')], 'Point'),
     'schnorr_point_mul': ('schnorr.py', 'point_mul', [('P', 'Point'), ('n', 'Int')], 'Point'),
     'schnorr_lift_x': ('schnorr.py', 'lift_x', [('x', 'Int')], 'Point'),
     'schnorr_has_even_y': ('schnorr.py', 'has_even_y', [('P', 'Point')], 'Bool'),
     # BIP340 signing / verification of the bundled reference code; SHA-256 (hashlib) is a parameter
-    'schnorr_tagged_hash': ('schnorr.py', 'tagged_hash', [('sha256', 'Bytes → Bytes'), ('tag', 'Bytes'), ('msg', 'Bytes')], 'Bytes'),
+    'schnorr_tagged_hash': ('schnorr.py', 'tagged_hash', [('hashlib_sha256', 'Bytes → Bytes'), ('tag', 'Bytes'), ('msg', 'Bytes')], 'Bytes'),
     'schnorr_bytes_from_int': ('schnorr.py', 'bytes_from_int', [('x', 'Int')], 'Bytes'),
     'schnorr_bytes_from_point': ('schnorr.py', 'bytes_from_point', [('P', 'Point')], 'Bytes'),
     'schnorr_xor_bytes': ('schnorr.py', 'xor_bytes', [('b0', 'Bytes'), ('b1', 'Bytes')], 'Bytes'),
     'schnorr_int_from_bytes': ('schnorr.py', 'int_from_bytes', [('b', 'Bytes')], 'Int'),
     'schnorr_verify': ('schnorr.py', 'schnorr_verify',
-                       [('sha256', 'Bytes → Bytes'), ('msg', 'Bytes'), ('pubkey', 'Bytes'), ('sig', 'Bytes')], 'Bool'),
+                       [('hashlib_sha256', 'Bytes → Bytes'), ('msg', 'Bytes'), ('pubkey', 'Bytes'), ('sig', 'Bytes')], 'Bool'),
     'schnorr_sign': ('schnorr.py', 'schnorr_sign',
-                     [('sha256', 'Bytes → Bytes'), ('msg', 'Bytes'), ('seckey', 'Bytes'), ('aux_rand', 'Bytes')], 'Bytes'),
+                     [('hashlib_sha256', 'Bytes → Bytes'), ('msg', 'Bytes'), ('seckey', 'Bytes'), ('aux_rand', 'Bytes')], 'Bytes'),
 }
 # callees of schnorr.py that take the SHA-256 parameter first / return bytes / return bool
 SCH_CALLS = {'tagged_hash': ('schnorr_tagged_hash', True), 'bytes_from_int': ('schnorr_bytes_from_int', False),
@@ -115,7 +125,7 @@ WHILE_FUEL = {'convertbits': '(Int.toNat bits + 1)',
 LIST_RET = {'bech32_hrp_expand', 'bech32_create_checksum'}
 STR_UTF8 = {'utils_tagged_hash', 'tapbranch_tagged_hash', 'tapleaf_tagged_hash', 'add_magic_prefix'}
 POINT_RET = {'point_add': 'schnorr_point_add', 'point_mul': 'schnorr_point_mul', 'lift_x': 'schnorr_lift_x'}
-CALLS = {'rol': 'rmd_rol', 'fi': 'rmd_fi', '_push_integer': 'push_integer', 'vi_to_int': 'vi_to_int',
+CALLS = {'ripemd160': 'rmd_ripemd160', 'rol': 'rmd_rol', 'fi': 'rmd_fi', '_push_integer': 'push_integer', 'vi_to_int': 'vi_to_int',
          'encode_varint': 'encode_varint', 'prepend_compact_size': 'prepend_compact_size',
          '_op_push_data': 'op_push_data', 'parse_compact_size': 'parse_compact_size',
          'bech32_polymod': 'bech32_polymod', 'bech32_hrp_expand': 'bech32_hrp_expand'}
@@ -350,7 +360,7 @@ class Tr:
             f = n.func
             nm = f.attr if isinstance(f, ast.Attribute) else getattr(f, 'id', '')
             return nm in ('to_bytes', 'pack', 'bytes', 'encode_varint', 'h_to_b', 'b_to_h', '_op_push_data',
-                          'prepend_compact_size', 'digest', 'encode') or nm in LIST_RET or nm in SCH_BYTES
+                          'prepend_compact_size', 'digest', 'encode', 'ripemd160') or nm in LIST_RET or nm in SCH_BYTES
         if isinstance(n, ast.Subscript): return isinstance(n.slice, ast.Slice) and s.isbytes(n.value)
         return False
 
@@ -375,11 +385,11 @@ class Tr:
                 return s.eff(f'Py.pt{f.id.upper()} {s.e(args[0])}')
             if f.id == 'is_infinite' and len(args) == 1 and s.ispoint(args[0]): return f'(Option.isNone {s.e(args[0])})'
             if f.id == 'pow' and len(args) == 3: return s.eff(f'Py.powMod {s.e(args[0])} {s.e(args[1])} {s.e(args[2])}')
-            if f.id == 'tagged_hash' and s.name in STR_UTF8 and 'sha256' in s.declared and len(args) == 2:
-                return s.eff(f'utils_tagged_hash sha256 {s.e(args[0])} {s.e(args[1])}')
+            if f.id == 'tagged_hash' and s.name in STR_UTF8 and 'hashlib_sha256' in s.params and len(args) == 2:
+                return s.eff(f'utils_tagged_hash hashlib_sha256 {s.e(args[0])} {s.e(args[1])}')
             if f.id in SCH_CALLS and 'p' in s.fconsts:
                 nm, sha = SCH_CALLS[f.id]
-                return s.eff(f'{nm} ' + ('sha256 ' if sha else '') + ' '.join(s.e(a) for a in args))
+                return s.eff(f'{nm} ' + ('hashlib_sha256 ' if sha else '') + ' '.join(s.e(a) for a in args))
             if f.id == 'bytes' and len(args) == 1 and isinstance(args[0], ast.GeneratorExp) and 'p' in s.fconsts:
                 g = args[0]
                 # bytes(x ^ y for (x, y) in zip(b0, b1))
@@ -414,8 +424,8 @@ class Tr:
         if isinstance(f, ast.Attribute):
             if (f.attr == 'digest' and not args and isinstance(f.value, ast.Call) and isinstance(f.value.func, ast.Attribute)
                     and f.value.func.attr == 'sha256' and isinstance(f.value.func.value, ast.Name) and f.value.func.value.id == 'hashlib'
-                    and len(f.value.args) == 1 and 'sha256' in s.declared):
-                return f'(sha256 {s.e(f.value.args[0])})'
+                    and len(f.value.args) == 1 and 'hashlib_sha256' in s.params):
+                return f'(hashlib_sha256 {s.e(f.value.args[0])})'
             if f.attr == 'encode' and not args and isinstance(f.value, ast.Name) and f.value.id in s.bytesvars:
                 return f.value.id       # str.encode() of a str modelled by its UTF-8 bytes
             if (f.attr == 'join' and isinstance(f.value, ast.Constant) and f.value.value == b'' and len(args) == 1
@@ -435,6 +445,8 @@ class Tr:
             if f.attr == 'to_bytes' and not args and isinstance(f.value, ast.Attribute) and isinstance(f.value.value, ast.Name) \
                     and f.value.value.id == 'self' and 'self_' + f.value.attr in s.toklists:
                 return s.eff(f'script_to_bytes OPS self_{f.value.attr}')            # self.script_sig.to_bytes()
+            if f.attr == 'to_bytes' and not args and isinstance(f.value, ast.Name) and f.value.id == 'self' and 'self_script' in s.toklists:
+                return s.eff('script_to_bytes OPS self_script')                       # self.to_bytes() inside a Script method
             if f.attr == 'to_bytes' and not args and isinstance(f.value, ast.Name) and f.value.id in s.toklists and 'OPS' in s.optables:
                 return s.eff(f'script_to_bytes OPS {f.value.id}')                  # script.to_bytes() on a Script argument
             if f.attr == 'encode' and isinstance(f.value, ast.Name) and f.value.id in s.bytesvars and len(args) <= 1:
@@ -480,6 +492,21 @@ class Tr:
         if (isinstance(st, ast.Expr) and isinstance(st.value, ast.Call) and getattr(st.value.func, 'id', '') == 'debug_print_vars'
                 and 'p' in s.fconsts):
             return []      # prints only when schnorr.DEBUG is set (checked to be False at generation time)
+        if (isinstance(st, ast.Return) and isinstance(st.value, ast.Call) and getattr(st.value.func, 'id', '') == 'Script'
+                and s.ret == 'List Py.PyTok' and len(st.value.args) == 1 and isinstance(st.value.args[0], ast.List)):
+            elts = []
+            for x in st.value.args[0].elts:
+                if isinstance(x, ast.Constant) and isinstance(x.value, str) and x.value.startswith('OP_'):
+                    elts.append(f'Py.PyTok.name {lean_str(x.value)}')
+                elif (isinstance(x, ast.Call) and isinstance(x.func, ast.Attribute) and isinstance(x.func.value, ast.Name)
+                      and x.func.value.id == 'self' and x.func.attr in ('to_hash160', 'to_witness_program') and not x.args):
+                    elts.append(f'Py.PyTok.data self_{x.func.attr[3:]}')       # the stored hex string, as the bytes it denotes
+                elif isinstance(x, ast.Call) and getattr(x.func, 'id', '') == 'b_to_h' and len(x.args) == 1:
+                    elts.append(f'Py.PyTok.data {s.e(x.args[0])}')
+                elif isinstance(x, ast.Name) and x.id in s.bytesvars:
+                    elts.append(f'Py.PyTok.data {x.id}')
+                else: s.fail(st, 'Script([...]) element')
+            return s.flush(ind) + [f'{ind}return [' + ', '.join(elts) + ']']
         if (isinstance(st, ast.Return) and isinstance(st.value, ast.Call) and getattr(st.value.func, 'id', '') == 'Script'
                 and s.ret == 'List Py.PyTok' and len(st.value.keywords) == 1 and st.value.keywords[0].arg == 'script'
                 and isinstance(st.value.keywords[0].value, ast.Name) and st.value.keywords[0].value.id in s.toklists):
@@ -613,7 +640,7 @@ class Tr:
     def fn(s, node, params, ret):
         s.ret = ret; s.bytesvars = {p for p, t in params if t == 'Bytes'}; s.boolvars = {p for p, t in params if t == 'Bool'}
         s.intlists = {p for p, t in params if t == 'List Int'}; s.charlists = {p for p, t in params if t == 'List Char'}
-        s.declared = {p for p, _ in params}; s.selfalias = set()
+        s.declared = {p for p, _ in params}; s.selfalias = set(); s.params = {p for p, _ in params}
         s.points = {p for p, t in params if t == 'Point'}
         s.toklists = {p for p, t in params if t == 'List Py.PyTok'}; s.tokvars = set()
         s.byteslists = {p for p, t in params if t == 'List Bytes'}
